@@ -2,6 +2,7 @@ from . import hubprops
 from .. import scenarios
 
 hubprops.PLAN["C07"] = [
+    {"fam": "repo-tests", "scen": "repo-tests", "num_q": 0, "num_t": 0},
     {"fam": "Identity", "num_q": 40, "num_t": 600, "depth": 100},
     {"fam": "Routing", "num_q": 50, "num_t": 600, "depth": 80},
     {"fam": "Failures", "num_q": 60, "num_t": 600, "depth": 80},
